@@ -352,6 +352,23 @@ def protocol_tables(out):
     out["Protocol"] = d
 
 
+
+@extractor
+def status_table(out):
+    t = parse("protocol/statuscodes.py")
+    rows = []
+    for n in t.body:
+        if isinstance(n, ast.ClassDef) and n.name == "HapStatusCode":
+            for a in n.body:
+                if isinstance(a, ast.Assign) and isinstance(a.targets[0], ast.Name) and isinstance(a.value, ast.Tuple):
+                    v, d = a.value.elts
+                    rows.append([a.targets[0].id, ast.literal_eval(v), ast.literal_eval(d)])
+    if not rows:
+        raise Shape("HapStatusCode")
+    f = func(t, "to_status_code")
+    out["Status"] = {"hap": rows, "toStatusCodeSrc": ast.unparse(f)}
+
+
 # --------------------------------------------------------------------------- emission
 
 def emit(out):
@@ -462,6 +479,14 @@ def emit_protocol(out, files):
         L.append(f"def nonces_{fn} : List String := " + lean_list(nn, lean_str))
     L.append("end HapVerif.Gen.Protocol")
     files["Protocol.lean"] = "\n".join(L) + "\n"
+
+
+@emitter
+def emit_status(out, files):
+    L = ["/-! GENERATED by tools/translate.py from protocol/statuscodes.py - do not edit. -/", "namespace HapVerif.Gen.Status",
+         "def hap : List (String × Int × String) := " + lean_list(out["Status"]["hap"], lambda r: f"({lean_str(r[0])}, ({r[1]} : Int), {lean_str(r[2])})"),
+         "end HapVerif.Gen.Status"]
+    files["Status.lean"] = "\n".join(L) + "\n"
 
 
 def main():
